@@ -28,6 +28,7 @@ import (
 	"github.com/gofiber/fiber/v2"
 	v4 "github.com/versity/versitygw/aws/signer/v4"
 	"github.com/versity/versitygw/s3err"
+	"github.com/versity/versitygw/verifhook"
 )
 
 const (
@@ -77,6 +78,7 @@ func (ar *AuthReader) Read(p []byte) (int, error) {
 
 	if errors.Is(err, io.EOF) {
 		verr := ar.validateSignature()
+		verifhook.At("auth.deferred_checked", "ok", fmt.Sprint(verr == nil))
 		if verr != nil {
 			return n, verr
 		}
